@@ -498,6 +498,16 @@ class Model(object):
         self.put(self.h, s, self.fresh(self.lib_static))
         return self.expect(())
 
+    def op_vec_inout_alloc(self, n, _b, _t):
+        arr = list(range(1, n + 1))
+        arr = arr + [x + 100 for x in arr]
+        return self.expect((len(arr), sum(arr)))
+
+    def op_str_ptr_out(self, cap, n, _t):
+        if self.driver == "py":
+            return self.expect((n, pattern(n)))
+        return self.expect((cap, fpad(pattern(n), cap)))
+
     def op_vec_ret_l(self, n, _b, _t):
         # a function inside a namespace whose std::vector<long> copy needs a destructor of its own
         return self.expect((n, sum(7 * i for i in range(n))))
@@ -526,7 +536,7 @@ OPS_COMMON = ["item_default", "item_val", "item_delete", "item_value", "item_set
               "vec_sum", "vec_iota", "vec_inc", "vec_alloc", "vec_ret", "vec_str_count",
               "arr_new", "arr_lib", "arr_new_alloc", "cap_delete", "cap_scope",
               "arr_pat", "arr_sum", "char_grow", "ref_item", "vec_ret_d", "char_arr",
-              "str_ptr_in", "str_val_in", "char_ret_len", "char_ret_null", "vec_iota_d", "arr_fill_out", "vec_ret_l"]
+              "str_ptr_in", "str_val_in", "char_ret_len", "char_ret_null", "vec_iota_d", "arr_fill_out", "vec_ret_l", "vec_inout_alloc", "str_ptr_out"]
 
 TEXTS = ["", " ", "a", "hello", "two words", "  lead", "trail  ", "exactly-twenty-chars", "x" * 40,
          "MiXeD 123 !?", "tab-less ~ text", "ends with blank "]
@@ -581,7 +591,9 @@ def gen_op(rng, model, enabled, uniq):
     if name in ("str_in", "str_ptr_in", "str_val_in"):
         text = rng.choice(TEXTS)
         return [name, rng.choice([len(text), len(text) + 3, max(0, len(text) - 2), lengths(rng)]), 0, text]
-    if name == "str_out":
+    if name == "vec_inout_alloc":
+        return [name, lengths(rng)]
+    if name in ("str_out", "str_ptr_out"):
         n = lengths(rng)
         return [name, rng.choice([n, n + 1, max(0, n - 1), lengths(rng)]), n]
     if name in ("str_inout", "char_inout"):
@@ -626,7 +638,7 @@ PY_ONLY = ["box_delete", "bad_vec_sum", "bad_arg", "nomem", "bad_arr_sum"] + ["l
 # char_inout: the Python wrapper hands the str object's own UTF-8 buffer to the library, which
 # upper-cases it in place and thereby corrupts interned strings of the interpreter (a C03 defect;
 # it would make later *values* wrong, so the op is not generated for Python)
-NOT_PY = ["copy_item", "vec_inc", "vec_str_count", "cap_delete", "cap_scope", "char_inout", "char_grow", "vec_ret_d", "vec_iota_d", "vec_ret_l"]
+NOT_PY = ["copy_item", "vec_inc", "vec_str_count", "cap_delete", "cap_scope", "char_inout", "char_grow", "vec_ret_d", "vec_iota_d", "vec_ret_l", "vec_inout_alloc"]
 
 
 C_ONLY = ["item_release", "box_release", "cstr_ref", "cstr_lib", "cstr_owned", "cstr_in", "cstr_out", "cstr_inout"]
